@@ -1,4 +1,5 @@
 import FrappyModel.Spec.C01
+import FrappyModel.Base.NumCompat
 /-
 C03 — Datatype descriptions, copies and compatibility verdicts are faithful.
 
@@ -152,6 +153,69 @@ instance (a b : DType F) : Decidable (Nested a b) := decNested a b
 
 /-- monitor: the pair is one the check is written to accept -/
 def nestedB (a b : DType F) : Bool := decide (Nested a b)
+
+/-! ## side conditions of the soundness theorem (the quantifier of the property) -/
+
+mutual
+/-- "scaled integers with grid-aligned limits": every scaled limit is the grid value of its grid index -/
+def GridAligned : DType F → Prop
+  | .scaled s mn mx _ _ => snap s mn = some mn ∧ snap s mx = some mx
+  | .array e _ _ => GridAligned e
+  | .tuple es => GridAlignedList es
+  | .struct ms _ _ => GridAlignedFields ms
+  | _ => True
+def GridAlignedList : List (DType F) → Prop
+  | [] => True
+  | t :: ts => GridAligned t ∧ GridAlignedList ts
+def GridAlignedFields : List (String × DType F) → Prop
+  | [] => True
+  | (_, t) :: ts => GridAligned t ∧ GridAlignedFields ts
+end
+
+mutual
+/-- every `relative_resolution` of a double is at most 1 (a larger one makes the tolerance shrink faster
+than the value moves: recorded finding `C03:sound:double->double:relative-resolution-above-1`) -/
+def ResLeOne : DType F → Prop
+  | .double _ _ _ rr => resLeOne rr = true
+  | .array e _ _ => ResLeOne e
+  | .tuple es => ResLeOneList es
+  | .struct ms _ _ => ResLeOneFields ms
+  | _ => True
+def ResLeOneList : List (DType F) → Prop
+  | [] => True
+  | t :: ts => ResLeOne t ∧ ResLeOneList ts
+def ResLeOneFields : List (String × DType F) → Prop
+  | [] => True
+  | (_, t) :: ts => ResLeOne t ∧ ResLeOneFields ts
+end
+
+mutual
+/-- no member that is optional in a struct of `a` is mandatory in the corresponding struct of `b`
+(excludes the recorded finding `C03:sound:struct->struct:optional-vs-mandatory`) -/
+def OptionalRespected : DType F → DType F → Prop
+  | .array e _ _, b =>
+    match b with
+    | .array e' _ _ => OptionalRespected e e'
+    | _ => True
+  | .tuple es, b =>
+    match b with
+    | .tuple es' => OptionalRespectedList es es'
+    | _ => True
+  | .struct ms opt _, b =>
+    match b with
+    | .struct ms' opt' _ => (∀ k ∈ opt, k ∈ ms'.map (·.1) → k ∈ opt') ∧ OptionalRespectedFields ms ms'
+    | _ => True
+  | _, _ => True
+def OptionalRespectedList : List (DType F) → List (DType F) → Prop
+  | t :: ts, t' :: ts' => OptionalRespected t t' ∧ OptionalRespectedList ts ts'
+  | _, _ => True
+def OptionalRespectedFields : List (String × DType F) → List (String × DType F) → Prop
+  | [], _ => True
+  | (k, t) :: rest, ms' =>
+    (match DType.member? ms' k with
+     | some t' => OptionalRespected t t'
+     | none => True) ∧ OptionalRespectedFields rest ms'
+end
 
 /-! ## soundness of a verdict -/
 
